@@ -43,6 +43,7 @@ Work on one change at a time:
 Report back, concisely, for A and for B: (1) the patch path; (2) the demo path and the exact command to run it (use -run with a pattern that selects only that demo); (3) two or three sentences: what the change is, which property clause it breaks, and exactly which input/state/history triggers it; (4) observed results of build, existing suite, and the demo on changed vs original tree.'''
 extra = {
  "5": "Prefer the glue between functions over the obvious core: error paths, default values, less-used API entry points and options, rarely-set struct fields, the second of two similar code paths (the CardDAV twin of a CalDAV function, MOVE next to COPY, HEAD next to GET), header or attribute handling, and interactions of two features. ",
+ "7": "Prefer boundary values (zero, negative and very large numbers; empty strings, lists and bodies; the first and the last element), rarely used public entry points and options of the clients and servers, HEAD next to GET, DELETE and MKCOL on the CalDAV/CardDAV servers, and small 'harmless' API conveniences (defaults filled in, values normalised, lenient parsing). ",
  "6": "Prefer changes whose effect shows only through a SEQUENCE of operations or a COMBINATION of two inputs that are each harmless alone, and changes in helper functions shared by several callers where only one caller's behaviour changes. ",
 }.get(N, "")
 for k in props:
